@@ -99,10 +99,13 @@ def Item.inScope (it : Item) (pid key : Nat) (kind : Option Kind) (cat : Option 
   (match cat with | none => true | some c => it.key == key && it.cat == c)
 
 /-- The tag filter as the code evaluates it: encoder model + SQL meaning, on the row's stored tags. -/
-def matchFilter (like : Bytes → Bytes → Bool) (f : Option (Query String)) (it : Item) : Bool :=
+def matchTags (like : Bytes → Bytes → Bool) (f : Option (Query String)) (tags : List Tag) : Bool :=
   match f with
   | none => true
-  | some q => evalFilter like (encodeQuery TagCrypto.toy (tagQuery q)) (it.tags.map TagCrypto.toy.encTag)
+  | some q => evalFilter like (encodeQuery TagCrypto.toy (tagQuery q)) (tags.map TagCrypto.toy.encTag)
+
+def matchFilter (like : Bytes → Bytes → Bool) (f : Option (Query String)) (it : Item) : Bool :=
+  matchTags like f it.tags
 
 /-- `limit_query`: ` LIMIT off, lim` with negative offset = 0 and negative limit = unlimited -/
 def window (off : Option Int) (lim : Option Int) (rows : List α) : List α :=
@@ -308,16 +311,16 @@ def createProfile (db : Db) (h : Handle) (name : String) : Except Err (Db × Han
          { cache := cachePut h.cache name (id, h.nextKey), nextKey := h.nextKey + 1 })
 
 /-- Does `remove_profile` evict the removed profile from the handle's key cache?  Follows the code
-    (pinned tree: no — defect D7; see known-findings). -/
-def evictOnRemove : Bool := false
+    (after the repair of defect D7: yes; see known-findings.json). -/
+def evictOnRemove : Bool := true
 
 /-- `remove_profile`: the row is deleted and items cascade; the cache entry is evicted. -/
 def removeProfile (db : Db) (h : Handle) (name : String) (evict : Bool) : (Db × Handle) × Bool :=
+  let h' := if evict then { h with cache := h.cache.filter (·.1 != name) } else h
   match db.profiles.find? (·.name == name) with
-  | none => ((db, h), false)
+  | none => ((db, h'), false)
   | some p =>
-    (({ items := db.items.filter (·.pid != p.id), profiles := db.profiles.filter (·.name != name) },
-      if evict then { h with cache := h.cache.filter (·.1 != name) } else h), true)
+    (({ items := db.items.filter (·.pid != p.id), profiles := db.profiles.filter (·.name != name) }, h'), true)
 
 /-- `ping`: `SELECT COUNT(*) FROM profiles WHERE id = ?` -/
 def ping (db : Db) (s : Sess) : Except Err Unit :=
